@@ -25,6 +25,12 @@ Print Assumptions C02_checkAllArgs_spec.
 (* "for every inbound message -- including hand-crafted token streams -- the method body runs only if ...":
    pos / kws are ARBITRARY wire trees (any type bytes, sizes, arities, forged back-references WRef);
    the dominance of the check over the invocation is the shape fact doCall_shape translated from Broker._doCall *)
+(* NOTE on what carries this theorem and the next three: they follow from doCall_checked alone, i.e. from the shape fact
+   "checkAllArgs(args, kwargs, True) dominates both invocations in Broker._doCall, on the very objects that are passed"
+   (read from the AST by translate/g_schema.py) plus checkAllArgs_spec / checkObject_sound.  The token-level part of the
+   model (tasters, setConstraint hand-down, child slots) does not enter their proofs -- whatever the unslicers let
+   through, the final check refuses.  Where the token-level model DOES carry the statement: C02_one_call_violation (below),
+   C02_result_partial, C02_reference_checked, and all of C12. *)
 Theorem C02_args : forall ms pos kws a kw,
   recv_call ms pos kws = CInvoke a kw -> checkAllArgs ms a kw = Ok tt.
 Proof. exact recv_call_checked. Qed.
@@ -38,6 +44,37 @@ Theorem C02_args_values_satisfy : forall ms pos kws a kw,
   kw_fresh (map fst (combine (names ms) a)) (map fst kw) /\ zlen a <= zlen (ms_args ms).
 Proof. exact C02_args_main. Qed.
 Print Assumptions C02_args_values_satisfy.
+
+(* ... the same for the `arguments` sequence as the state machine ArgumentUnslicer is: items are ARBITRARY children -- the
+   positional-argument COUNT token is chosen by the peer like everything else (too large, too small, not an INT, missing),
+   values may stand where names are expected and vice versa, the sequence may end anywhere; ms is ANY method schema,
+   including the __ignoreUnknown__ / __acceptUnknown__ flags of RemoteMethodSchema *)
+Theorem C02_args_any_stream : forall ms items a kw,
+  recv_arguments ms items = CInvoke a kw -> checkAllArgs ms a kw = Ok tt.
+Proof. exact recv_arguments_checked. Qed.
+Print Assumptions C02_args_any_stream.
+
+Theorem C02_args_any_stream_values_satisfy : forall ms items a kw,
+  recv_arguments ms items = CInvoke a kw ->
+  (forall n v, In (n, v) (combine (names ms) a ++ kw) ->
+     exists sp, In sp (ms_args ms) /\ a_name sp = n /\ satisfies (a_ctr sp) v) /\
+  (forall sp, In sp (ms_args ms) -> a_opt sp = false -> In (a_name sp) (map fst (combine (names ms) a ++ kw))) /\
+  kw_fresh (map fst (combine (names ms) a)) (map fst kw) /\ zlen a <= zlen (ms_args ms).
+Proof. exact recv_arguments_main. Qed.
+Print Assumptions C02_args_any_stream_values_satisfy.
+
+(* "no undeclared argument is present" also when the schema says __ignoreUnknown__ or __acceptUnknown__ *)
+Theorem C02_unknown_flags_never_accept : forall ms items a kw,
+  recv_arguments ms items = CInvoke a kw -> forall n, In n (map fst kw) -> In n (names ms).
+Proof. exact unknown_flags_never_accept. Qed.
+Print Assumptions C02_unknown_flags_never_accept.
+
+(* recv_call (used above and by C12) is not a separate model with an assumption about the count: it IS the machine on the
+   streams whose count token equals the number of positional trees *)
+Theorem C02_counted_streams : forall ms pos kwsb,
+  recv_arguments ms (enc_args pos kwsb) = recv_call ms pos (code_kws kwsb).
+Proof. exact recv_arguments_refines. Qed.
+Print Assumptions C02_counted_streams.
 
 (* "streams that use back-references to smuggle an earlier object of the wrong shape": a reference -- to an earlier
    complete object o, or (o = OPending k) to an enclosing tuple that is still open and only known as a Deferred -- gets
@@ -85,9 +122,43 @@ Theorem C02_result_partial : forall c w v,
 Proof. exact C02_result_partial_main. Qed.
 Print Assumptions C02_result_partial.
 
+(* "a non-conforming message makes that one call fail with a Violation", POSITIVELY, where it holds: for method schemas
+   whose arguments are declared with the token-level constraints that are not strictTaster (Int / Number / ByteString, any
+   bounds) and carry neither unknown-argument flag, EVERY counted stream -- whatever wire trees stand in the argument
+   slots: wrong types, oversized tokens, containers, forged references, unknown / duplicate / missing names -- either
+   runs the method with arguments that pass checkAllArgs, or fails exactly this call with a Violation: the connection is
+   never lost and the failure is never another exception.  Proved through the token-level model (taster tables of the
+   three classes, their strictTaster flags, Constraint.checkToken, the refusal of OPEN), not through _doCall.
+   Missing w.r.t. the full sentence: every OPEN-sequence constraint (str/bool/None are strictTaster: refuted below;
+   containers hand constraints to children whose mismatch is an assertion: C12's D7a), uncounted streams (a sequence that
+   ends early is a BananaError by design) and "other calls are untouched" (no broker queue in the model; oracle). *)
+Theorem C02_one_call_violation : forall ms pos kws, leaf_schema ms ->
+  recv_call ms pos kws = CViol \/ exists a kw, recv_call ms pos kws = CInvoke a kw /\ checkAllArgs ms a kw = Ok tt.
+Proof. exact one_call_violation. Qed.
+Print Assumptions C02_one_call_violation.
+
+Theorem C02_one_call_violation_stream : forall ms pos kwsb, leaf_schema ms ->
+  recv_arguments ms (enc_args pos kwsb) = CViol \/
+  exists a kw, recv_arguments ms (enc_args pos kwsb) = CInvoke a kw /\ checkAllArgs ms a kw = Ok tt.
+Proof. exact one_call_violation_stream. Qed.
+Print Assumptions C02_one_call_violation_stream.
+
 (* "a non-conforming message makes that one call fail with a Violation": FALSE for strictTaster constraints
    (known finding oracle/strict-taster-drops-connection): a wrong token type under str/bool/None is a BananaError *)
 Theorem C02_one_call_refuted :
   exists ms pos, recv_call ms pos [] = CAbort /\ ms = ms1 (CText None 0) /\ pos = [WInt 129 5 5].
 Proof. exact SchemaProofs.C02_one_call_refuted. Qed.
 Print Assumptions C02_one_call_refuted.
+
+(* ... and under the two unknown-argument flags (findings oracle/ignore-unknown-drops-connection,
+   oracle/unknown-flag-attributeerror): an unknown keyword name under __ignoreUnknown__ trips `assert accept` (connection
+   lost); under either flag checkAllArgs ends in None.checkObject, an AttributeError instead of a Violation *)
+Theorem C02_unknown_flags_refuted :
+  recv_arguments (ms3 true false) [WInt 129 1 1; i5; kname 122; i5] = CAbort /\
+  recv_arguments (ms3 false true) [WInt 129 1 1; i5; kname 122; i5] = CFail /\
+  checkAllArgs (ms3 true false) [OInt 5] [(nZ, OInt 5)] = Exc "AttributeError" /\
+  checkAllArgs (ms3 false true) [OInt 5] [(nZ, OInt 5)] = Exc "AttributeError" /\
+  checkAllArgs (ms3 false false) [OInt 5] [(nZ, OInt 5)] = Exc "Violation" /\
+  recv_arguments (ms3 true true) [WInt 129 1 1; i5] = CInvoke [OInt 5] [].
+Proof. exact unknown_flags_refuted. Qed.
+Print Assumptions C02_unknown_flags_refuted.
